@@ -325,3 +325,39 @@ Definition c03_covopt_case (X : list (list oq)) (impl_cov : list (list oq)) (imp
           let sc i j := nth j (nth i S []) 0 in
           forallb (fun v => let w := mask_probe X v in
                      Qleb (- (tol44 * quad B (map Qabs w) sc)) (quad B w entry0)) probes) ].
+
+(* ------------------------------------------------ magnitudes
+   Pair counts are sums of products of object weights (times a scale weight r^alpha), so their unit is
+   arbitrary: catalogs with weights of 2^-30, counts multiplied by a constant (CorrFunc * c), scale
+   weights.  The leave-one-out recount is homogeneous - counts times c give samples times c, weights
+   times a and b give normalisations times a*b - and the normalised statistic depends on c/(a*b) only
+   (Proofs: loo_scale, sample_scale, norm_denominator_scale, nc_stat_scale, nc_sample_weight_invariant).
+   There is no absolute size below which a leave-one-out sum "is empty". *)
+Definition vscale (c : Q) (l : list Q) : list Q := map (Qmult c) l.
+Definition mscale (c : Q) (M : mat) : mat := map (vscale c) M.
+(* one sample of NormalisedCounts.sample_patch_sum (one bin) *)
+Definition nc_sample (auto : bool) (M : mat) (u v : list Q) (k : nat) : Q :=
+  sample M k / sample (weights_array auto u v) k.
+(* the variant that the property excludes: leave-one-out sums within eps of zero are taken for
+   round-off residuals of an empty sample (np.isclose(x, 0.0): |x| <= atol) *)
+Definition snap (eps x : Q) : Q := if Qleb (Qabs x) eps then 0 else x.
+Definition sample_thr (eps : Q) (M : mat) (k : nat) : Q := snap eps (sample M k).
+Definition nc_sample_thr (eps : Q) (auto : bool) (M : mat) (u v : list Q) (k : nat) : Q :=
+  sample_thr eps M k / sample (weights_array auto u v) k.
+
+(* the real pipeline: jackknife sample k of a measurement against the value of the measurement
+   repeated on catalogs from which patch k was removed (both are floats of the implementation; sums
+   taken in another order): compared where both are numbers, to tol * (1 + |value|) *)
+Definition near1 (tol : Q) (x y : oq) : bool :=
+  match x, y with
+  | Some p, Some q => Qnear tol p q (1 + Qabs q)
+  | _, _ => true
+  end.
+Fixpoint forallb2o (f : oq -> oq -> bool) (l1 l2 : list oq) : bool :=
+  match l1, l2 with
+  | [], [] => true
+  | a :: l1', b :: l2' => f a b && forallb2o f l1' l2'
+  | _, _ => false
+  end.
+Definition c03_rerun_case (tol : Q) (sample_k rerun : list oq) : nat :=
+  code [ forallb2o (near1 tol) sample_k rerun ].
